@@ -249,7 +249,7 @@ func (s *SelectStatement) ToStreamConfig() (*types.Config, string, error) {
 	// HAVING 可引用未选出的聚合（标准 SQL）。把 HAVING 文本里的聚合调用
 	// 映射到已选 alias，或注册为隐藏聚合 __having_N__ 让 aggregator 补算；aggs/fields 原地扩充。
 	selectAlias := buildSelectAliasMap(s.Fields)
-	havingRewritten := extractHavingAggregates(s.Having, aggs, fields, selectAlias)
+	havingRewritten := extractHavingAggregates(s.Having, aggs, fields, expressions, selectAlias)
 
 	// 执行路径模式：MATCH_RECOGNIZE→CEP；窗口/聚合→Window；否则 Direct。
 	// 拦截 MATCH_RECOGNIZE 与 GROUP/聚合、JOIN 的组合（后续阶段支持）。
@@ -560,20 +560,73 @@ func collapseSpacesOutsideQuotes(s string) string {
 	return b.String()
 }
 
+// joinCallNamesToParens removes the blanks between a function name and its opening
+// parenthesis outside string literals: the parser stores the HAVING text with a blank
+// between all tokens ("sum ( v * 2 )") while the aggregate parsing helpers expect
+// "sum(". All other blanks stay, so keywords inside an argument (CASE WHEN ...) keep
+// their separators.
+func joinCallNamesToParens(s string) string {
+	isWordChar := func(c byte) bool {
+		return c == '_' || (c >= '0' && c <= '9') || (c >= 'a' && c <= 'z') || (c >= 'A' && c <= 'Z')
+	}
+	var b strings.Builder
+	b.Grow(len(s))
+	for i := 0; i < len(s); {
+		c := s[i]
+		if c == '\'' || c == '"' || c == '`' {
+			j := i + 1
+			for j < len(s) && s[j] != c {
+				j++
+			}
+			if j < len(s) {
+				j++
+			}
+			b.WriteString(s[i:j])
+			i = j
+			continue
+		}
+		if !isWordChar(c) {
+			b.WriteByte(c)
+			i++
+			continue
+		}
+		j := i
+		for j < len(s) && isWordChar(s[j]) {
+			j++
+		}
+		b.WriteString(s[i:j])
+		k := j
+		for k < len(s) && (s[k] == ' ' || s[k] == '\t') {
+			k++
+		}
+		if k > j && k < len(s) && s[k] == '(' {
+			if _, isFunc := functions.Get(strings.ToLower(s[i:j])); isFunc {
+				j = k
+			}
+		}
+		i = j
+	}
+	return b.String()
+}
+
 // extractHavingAggregates 处理 HAVING 引用的聚合（标准 SQL：HAVING 可引用任意聚合，不必在 SELECT）。
 // 对 HAVING 文本里每个聚合调用 ac：
 //   - selectAlias[ac] 命中（SELECT 里 ac AS alias）→ 改写 HAVING 里 ac 为 alias（聚合已在算）。
 //   - aggs[ac] 命中（无别名选出，键恰为调用文本）→ 不动。
 //   - 否则（未选出）→ 注册隐藏聚合 __having_N__（aggs/fieldMap 原地扩充），ac 改写为 __having_N__。
 // 返回改写后的 HAVING 文本。aggs/fieldMap 为 map 引用，原地修改。
-func extractHavingAggregates(having string, aggs map[string]aggregator.AggregateType, fieldMap map[string]string, selectAlias map[string]string) string {
+//
+// The argument of a hidden aggregate may be an expression (sum(v*2), avg(v + w)):
+// it is recorded in expressions, as the SELECT list does, so that the aggregate is
+// computed over the expression evaluated per row and not over its first column.
+func extractHavingAggregates(having string, aggs map[string]aggregator.AggregateType, fieldMap map[string]string, expressions map[string]types.FieldExpression, selectAlias map[string]string) string {
 	if strings.TrimSpace(having) == "" {
 		return having
 	}
 	pattern := regexp.MustCompile(`(?i)\b([a-z_]+)\s*\(`)
 	type span struct{ start, closeParen int }
 	var spans []span
-	var calls []string
+	var calls, names []string
 	for _, m := range pattern.FindAllStringSubmatchIndex(having, -1) {
 		nm := strings.ToLower(having[m[2]:m[3]])
 		fn, ok := functions.Get(nm)
@@ -587,6 +640,7 @@ func extractHavingAggregates(having string, aggs map[string]aggregator.Aggregate
 		}
 		spans = append(spans, span{m[0], cp})
 		calls = append(calls, having[m[0]:cp+1])
+		names = append(names, nm)
 	}
 	if len(spans) == 0 {
 		return having
@@ -602,11 +656,16 @@ func extractHavingAggregates(having string, aggs map[string]aggregator.Aggregate
 			repl[i] = ac
 			continue
 		}
-		aggType, name, _, _, perr := ParseAggregateTypeWithExpression(collapseSpacesOutsideQuotes(ac))
-		if perr != nil || aggType == "" {
+		// ac is exactly one call of the aggregate names[i]; its argument is taken
+		// directly, so that an argument with operators inside a nested call
+		// (sum(abs(v - 5))) is not mistaken for an expression around the aggregate.
+		call := joinCallNamesToParens(ac)
+		if perr := detectNestedAggregation(call); perr != nil {
 			repl[i] = ac // 解析失败原样保留（求值落空但不破坏文本）
 			continue
 		}
+		aggType := aggregator.AggregateType(names[i])
+		name, expression, allFields := extractAggFieldWithExpression(call, names[i])
 		hidden := fmt.Sprintf("__having_%d__", seq)
 		seq++
 		aggs[hidden] = aggType
@@ -614,6 +673,15 @@ func extractHavingAggregates(having string, aggs map[string]aggregator.Aggregate
 			fieldMap[hidden] = name
 		} else {
 			fieldMap[hidden] = hidden
+		}
+		// An expression argument is evaluated per row, like the same call in SELECT.
+		// Extra arguments of a multi-argument aggregate are not an expression.
+		if expression != "" && expressions != nil && len(splitTopLevelCommas(expression)) == 1 {
+			expressions[hidden] = types.FieldExpression{
+				Field:      name,
+				Expression: expression,
+				Fields:     allFields,
+			}
 		}
 		repl[i] = hidden
 	}
